@@ -810,28 +810,37 @@ Lemma map_opt_map {A B} (dec : pv -> option B) (ans : A -> pv) (pub : A -> B) l 
   Forall (fun x => dec (ans x) = Some (pub x)) l -> map_opt dec (map ans l) = Some (map pub l).
 Proof. induction 1 as [|x l Hx Hl IH]; simpl; [reflexivity|]. rewrite Hx, IH. reflexivity. Qed.
 
-Lemma decode_input_ok ts iv :
-  input_ok true ts iv -> decode_input (input_value_answer full_flags ts iv) = Some (public_input ts iv).
+Section DecodeGen.
+  Variable defaults : bool.
+  Variable dd : option pv -> option (option lit).
+  Variable pd : iref -> option pv -> option lit.
+  Variable ts : list (itype pv).
+  Hypothesis Hdd : forall t d,
+    (defaults = true -> match d with Some v => default_ok ts t v | None => True end) ->
+    dd (Some (format_default_value d)) = Some (pd t d).
+
+Lemma decode_input_ok iv :
+  input_ok defaults ts iv -> decode_input_with dd (input_value_answer full_flags ts iv) = Some (public_input_with pd iv).
 Proof.
-  intros [Hr Hd]. specialize (Hd eq_refl). unfold decode_input.
+  intros [Hr Hd]. unfold decode_input_with.
   change (getk (S_ "name") (input_value_answer full_flags ts iv)) with (Some (PStr (iv_name iv))).
   change (getk (S_ "description") (input_value_answer full_flags ts iv)) with (Some (opt_str (iv_desc iv))).
   change (getk (S_ "type") (input_value_answer full_flags ts iv)) with (Some (top_ref ts (iv_type iv))).
   change (getk (S_ "defaultValue") (input_value_answer full_flags ts iv))
     with (Some (format_default_value (iv_default iv))).
-  cbn [as_str obind_]. rewrite (decode_top_ref ts _ Hr), (decode_default_ok ts _ _ Hd).
-  unfold public_input. destruct (iv_desc iv); reflexivity.
+  cbn [as_str obind_]. rewrite (decode_top_ref ts _ Hr), (Hdd _ _ Hd).
+  unfold public_input_with. destruct (iv_desc iv); reflexivity.
 Qed.
 
-Lemma decode_inputs_ok ts ivs :
-  Forall (input_ok true ts) ivs ->
-  map_opt decode_input (map (input_value_answer full_flags ts) ivs) = Some (map (public_input ts) ivs).
+Lemma decode_inputs_ok ivs :
+  Forall (input_ok defaults ts) ivs ->
+  map_opt (decode_input_with dd) (map (input_value_answer full_flags ts) ivs) = Some (map (public_input_with pd) ivs).
 Proof. intros H. apply map_opt_map. eapply Forall_impl; [|exact H]. intros; apply decode_input_ok; assumption. Qed.
 
-Lemma decode_field_ok ts f :
-  field_ok true ts f -> decode_field (field_answer full_flags ts f) = Some (public_field ts f).
+Lemma decode_field_ok f :
+  field_ok defaults ts f -> decode_field_with dd (field_answer full_flags ts f) = Some (public_field_with pd f).
 Proof.
-  intros [Hr Ha]. unfold decode_field.
+  intros [Hr Ha]. unfold decode_field_with.
   change (getk (S_ "name") (field_answer full_flags ts f)) with (Some (PStr (f_name f))).
   change (getk (S_ "description") (field_answer full_flags ts f)) with (Some (opt_str (f_desc f))).
   change (getk (S_ "args") (field_answer full_flags ts f))
@@ -839,8 +848,8 @@ Proof.
   change (getk (S_ "type") (field_answer full_flags ts f)) with (Some (top_ref ts (f_type f))).
   change (getk (S_ "isDeprecated") (field_answer full_flags ts f)) with (Some (PBool (f_deprecated f))).
   change (getk (S_ "deprecationReason") (field_answer full_flags ts f)) with (Some (opt_str (f_reason f))).
-  cbn [as_str as_list as_bool obind_]. rewrite (decode_inputs_ok ts _ Ha), (decode_top_ref ts _ Hr).
-  unfold public_field. destruct (f_desc f), (f_reason f); reflexivity.
+  cbn [as_str as_list as_bool obind_]. rewrite (decode_inputs_ok _ Ha), (decode_top_ref ts _ Hr).
+  unfold public_field_with. destruct (f_desc f), (f_reason f); reflexivity.
 Qed.
 
 Lemma decode_enum_value_ok e :
@@ -854,7 +863,7 @@ Proof.
   unfold public_enum_value. destruct (ev_desc e), (ev_reason e); reflexivity.
 Qed.
 
-Lemma decode_named_refs (ts : list (itype pv)) ns :
+Lemma decode_named_refs ns :
   map_opt decode_named_ref (map (fun n => top_ref ts (IRNamed n)) ns) = Some ns.
 Proof.
   rewrite (map_opt_map decode_named_ref _ (fun n => n)); [rewrite map_id; reflexivity|].
@@ -862,10 +871,10 @@ Proof.
   unfold ref_ok; simpl; lia.
 Qed.
 
-Lemma decode_type_ok ts t :
-  type_ok true ts t -> decode_type (full_type full_flags ts t) = Some (public_type ts t).
+Lemma decode_type_ok t :
+  type_ok defaults ts t -> decode_type_with dd (full_type full_flags ts t) = Some (public_type_with pd t).
 Proof.
-  intros Hok. unfold decode_type.
+  intros Hok. unfold decode_type_with.
   change (getk (S_ "kind") (full_type full_flags ts t)) with (Some (PStr (kind_of_def (t_def t)))).
   change (getk (S_ "name") (full_type full_flags ts t)) with (Some (PStr (t_name t))).
   change (getk (S_ "description") (full_type full_flags ts t)) with (Some (opt_str (t_desc t))).
@@ -880,22 +889,22 @@ Proof.
                     | _ => None end)).
   change (getk (S_ "possibleTypes") (full_type full_flags ts t)) with
     (Some (opt_list (option_map (map (fun n => top_ref ts (IRNamed n))) (possible_types ts t)))).
-  unfold public_type, type_ok, possible_types in *. cbn [as_str obind_].
+  unfold public_type_with, type_ok, possible_types in *. cbn [as_str obind_].
   assert (Hd : forall (o : option str) (X : itypedef lit),
              (let? d := as_opt_str (Some (opt_str o)) in let? def := Some X in Some (IType (t_name t) d def))
              = Some (IType (t_name t) o X)) by (intros [x|] X; reflexivity).
-  destruct (t_def t) as [|fs ifs|fs|ms|vs|ivs]; cbn [kind_of_def public_def opt_list option_map as_list obind_].
+  destruct (t_def t) as [|fs ifs|fs|ms|vs|ivs]; cbn [kind_of_def public_def_with opt_list option_map as_list obind_].
   - apply Hd.
   - change (str_eqb (S_ "OBJECT") (S_ "SCALAR")) with false. change (str_eqb (S_ "OBJECT") (S_ "OBJECT")) with true.
     cbv beta iota. rewrite (visible_fields_all full_flags) by reflexivity.
-    rewrite (map_opt_map decode_field _ (public_field ts))
+    rewrite (map_opt_map (decode_field_with dd) _ (public_field_with pd))
       by (eapply Forall_impl; [|exact Hok]; intros; apply decode_field_ok; assumption).
     rewrite decode_named_refs. apply Hd.
   - change (str_eqb (S_ "INTERFACE") (S_ "SCALAR")) with false.
     change (str_eqb (S_ "INTERFACE") (S_ "OBJECT")) with false.
     change (str_eqb (S_ "INTERFACE") (S_ "INTERFACE")) with true.
     cbv beta iota. rewrite (visible_fields_all full_flags) by reflexivity.
-    rewrite (map_opt_map decode_field _ (public_field ts))
+    rewrite (map_opt_map (decode_field_with dd) _ (public_field_with pd))
       by (eapply Forall_impl; [|exact Hok]; intros; apply decode_field_ok; assumption).
     apply Hd.
   - change (str_eqb (S_ "UNION") (S_ "SCALAR")) with false. change (str_eqb (S_ "UNION") (S_ "OBJECT")) with false.
@@ -914,28 +923,32 @@ Proof.
     change (str_eqb (S_ "INPUT_OBJECT") (S_ "UNION")) with false.
     change (str_eqb (S_ "INPUT_OBJECT") (S_ "ENUM")) with false.
     change (str_eqb (S_ "INPUT_OBJECT") (S_ "INPUT_OBJECT")) with true.
-    cbv beta iota. rewrite (decode_inputs_ok ts _ Hok). apply Hd.
+    cbv beta iota. rewrite (decode_inputs_ok _ Hok). apply Hd.
 Qed.
 
-Lemma decode_directive_ok ts d :
-  Forall (input_ok true ts) (dr_args d) ->
-  decode_directive (directive_answer full_flags ts d) = Some (public_directive ts d).
+Lemma decode_directive_ok d :
+  Forall (input_ok defaults ts) (dr_args d) ->
+  decode_directive_with dd (directive_answer full_flags ts d) = Some (public_directive_with pd d).
 Proof.
-  intros Ha. unfold decode_directive.
+  intros Ha. unfold decode_directive_with.
   change (getk (S_ "name") (directive_answer full_flags ts d)) with (Some (PStr (dr_name d))).
   change (getk (S_ "description") (directive_answer full_flags ts d)) with (Some (opt_str (dr_desc d))).
   change (getk (S_ "locations") (directive_answer full_flags ts d)) with (Some (PList (map PStr (dr_locations d)))).
   change (getk (S_ "args") (directive_answer full_flags ts d))
     with (Some (PList (map (input_value_answer full_flags ts) (dr_args d)))).
-  cbn [as_str as_list obind_]. rewrite (decode_inputs_ok ts _ Ha).
+  cbn [as_str as_list obind_]. rewrite (decode_inputs_ok _ Ha).
   rewrite (map_opt_map (fun x => as_str (Some x)) PStr (fun x => x)) by (apply Forall_forall; reflexivity).
-  rewrite map_id. unfold public_directive. destruct (dr_desc d); reflexivity.
+  rewrite map_id. unfold public_directive_with. destruct (dr_desc d); reflexivity.
 Qed.
 
-Theorem decode_introspect_exact s :
-  schema_ok true s -> decode (introspect_model s full_flags) = Some (public s).
+End DecodeGen.
+
+Theorem decode_with_exact (defaults : bool) dd pd s :
+  (forall t d, (defaults = true -> match d with Some v => default_ok (s_types s) t v | None => True end) ->
+               dd (Some (format_default_value d)) = Some (pd t d)) ->
+  schema_ok defaults s -> decode_with dd (introspect_model s full_flags) = Some (public_with pd s).
 Proof.
-  intros [Ht Hd]. unfold decode.
+  intros Hdd [Ht Hd]. unfold decode_with.
   change (getk (S_ "__schema") (introspect_model s full_flags)) with (Some (schema_answer s full_flags)).
   cbn [obind_].
   change (getk (S_ "queryType") (schema_answer s full_flags)) with (Some (root_answer (Some (s_query s)))).
@@ -947,17 +960,30 @@ Proof.
     with (Some (PList (map (directive_answer full_flags (s_types s)) (sorted_directives s)))).
   assert (Hroot : forall o, decode_root (Some (root_answer o)) = Some o) by (intros [x|]; reflexivity).
   rewrite !Hroot. cbn [obind_ as_list].
-  rewrite (map_opt_map decode_type _ (public_type (s_types s))).
-  2:{ eapply Forall_impl; [intros a Ha; apply decode_type_ok; exact Ha|].
+  rewrite (map_opt_map (decode_type_with dd) _ (public_type_with pd)).
+  2:{ eapply Forall_impl; [intros a Ha; apply (decode_type_ok defaults dd pd (s_types s) Hdd); exact Ha|].
       eapply Permutation_Forall; [symmetry; apply sort_by_perm|exact Ht]. }
-  rewrite (map_opt_map decode_directive _ (public_directive (s_types s))).
-  2:{ eapply Forall_impl; [intros a Ha; apply decode_directive_ok; exact Ha|].
+  rewrite (map_opt_map (decode_directive_with dd) _ (public_directive_with pd)).
+  2:{ eapply Forall_impl; [intros a Ha; apply (decode_directive_ok defaults dd pd (s_types s) Hdd); exact Ha|].
       eapply Permutation_Forall; [symmetry; apply sort_by_perm|exact Hd]. }
-  cbn [obind_]. unfold public, sorted_types, sorted_directives.
-  rewrite (sort_by_map (public_type (s_types s)) t_name t_name) by reflexivity.
-  rewrite (sort_by_map (public_directive (s_types s)) dr_name dr_name) by reflexivity.
+  cbn [obind_]. unfold public_with, sorted_types, sorted_directives.
+  rewrite (sort_by_map (public_type_with pd) t_name t_name) by reflexivity.
+  rewrite (sort_by_map (public_directive_with pd) dr_name dr_name) by reflexivity.
   reflexivity.
 Qed.
+
+
+Theorem decode_introspect_exact s :
+  schema_ok true s -> decode (introspect_model s full_flags) = Some (public s).
+Proof.
+  apply (decode_with_exact true decode_default (pd_exact (s_types s)) s).
+  intros t d H. apply decode_default_ok. apply H. reflexivity.
+Qed.
+
+(* everything but the default values is reported exactly, whatever the defaults are *)
+Theorem decode_shape_exact s :
+  schema_ok false s -> decode_shape (introspect_model s full_flags) = Some (public_shape s).
+Proof. apply (decode_with_exact false dd_ignore pd_none s). intros t d _. reflexivity. Qed.
 
 (* ------------------------------------------------------------------ *)
 (* the filter statement on the full answer *)
@@ -1159,3 +1185,177 @@ Lemma w_deep_facts :
   schema_okb true (w_deep 7) = true /\
   decode (introspect_model (w_deep 7) full_flags) = Some (public (w_deep 7)).
 Proof. repeat split; vm_compute; reflexivity. Qed.
+
+(* ------------------------------------------------------------------ *)
+(* result(includeDeprecated: false) = result(true) minus the deprecated members *)
+
+Lemma field_answer_deprecated d ts f :
+  is_deprecated_entry (field_answer (IFlags true d) ts f) = f_deprecated f.
+Proof. destruct d; unfold is_deprecated_entry; cbn; destruct (f_deprecated f); reflexivity. Qed.
+
+Lemma enum_value_answer_deprecated d e :
+  is_deprecated_entry (enum_value_answer (IFlags true d) e) = ev_deprecated e.
+Proof. destruct d; unfold is_deprecated_entry; cbn; destruct (ev_deprecated e); reflexivity. Qed.
+
+Lemma filter_map_answer {A} (ans : A -> pv) (dep : A -> bool) l :
+  (forall x, is_deprecated_entry (ans x) = dep x) ->
+  filter (fun x => negb (is_deprecated_entry x)) (map ans l) = map ans (filter (fun x => negb (dep x)) l).
+Proof.
+  intros H. induction l as [|x l IH]; simpl; [reflexivity|]. rewrite H, IH. destruct (dep x); reflexivity.
+Qed.
+
+Lemma drop_shape_desc k n dsc F I J E P :
+  drop_deprecated_type (PDict [(S_ "kind", k); (S_ "name", n); (S_ "description", dsc); (S_ "fields", F);
+                               (S_ "inputFields", I); (S_ "interfaces", J); (S_ "enumValues", E);
+                               (S_ "possibleTypes", P)]) =
+  PDict [(S_ "kind", k); (S_ "name", n); (S_ "description", dsc); (S_ "fields", drop_deprecated_list F);
+         (S_ "inputFields", I); (S_ "interfaces", J); (S_ "enumValues", drop_deprecated_list E);
+         (S_ "possibleTypes", P)].
+Proof. reflexivity. Qed.
+
+Lemma drop_shape_nodesc k n F I J E P :
+  drop_deprecated_type (PDict [(S_ "kind", k); (S_ "name", n); (S_ "fields", F);
+                               (S_ "inputFields", I); (S_ "interfaces", J); (S_ "enumValues", E);
+                               (S_ "possibleTypes", P)]) =
+  PDict [(S_ "kind", k); (S_ "name", n); (S_ "fields", drop_deprecated_list F);
+         (S_ "inputFields", I); (S_ "interfaces", J); (S_ "enumValues", drop_deprecated_list E);
+         (S_ "possibleTypes", P)].
+Proof. reflexivity. Qed.
+
+Lemma full_type_drop_deprecated d ts t :
+  full_type (IFlags false d) ts t = drop_deprecated_type (full_type (IFlags true d) ts t).
+Proof.
+  unfold full_type, desc_entry. destruct d; cbn [with_descriptions app];
+    rewrite ?drop_shape_desc, ?drop_shape_nodesc;
+    destruct (t_def t) as [|fs ifs|fs|ms|vs|ivs]; cbn [opt_list drop_deprecated_list];
+    rewrite ?(visible_fields_all (IFlags true _)), ?(visible_values_all (IFlags true _)) by reflexivity;
+    rewrite ?(visible_fields_hidden (IFlags false _)), ?(visible_values_hidden (IFlags false _)) by reflexivity;
+    rewrite ?(filter_map_answer _ _ _ (field_answer_deprecated _ ts)),
+            ?(filter_map_answer _ _ _ (enum_value_answer_deprecated _));
+    reflexivity.
+Qed.
+
+Lemma on_dict_schema f (a : pv) : on_dict (S_ "__schema") f (PDict [(S_ "__schema", a)]) = PDict [(S_ "__schema", f a)].
+Proof. reflexivity. Qed.
+Lemma on_dict_types f q m su ty dr :
+  on_dict (S_ "types") f (PDict [(S_ "queryType", q); (S_ "mutationType", m); (S_ "subscriptionType", su);
+                                 (S_ "types", ty); (S_ "directives", dr)]) =
+  PDict [(S_ "queryType", q); (S_ "mutationType", m); (S_ "subscriptionType", su);
+         (S_ "types", f ty); (S_ "directives", dr)].
+Proof. reflexivity. Qed.
+Lemma on_dict_type f (a : pv) : on_dict (S_ "__type") f (PDict [(S_ "__type", a)]) = PDict [(S_ "__type", f a)].
+Proof. reflexivity. Qed.
+
+Theorem introspect_drop_deprecated s d :
+  introspect_model s (IFlags false d) = drop_deprecated (introspect_model s (IFlags true d)).
+Proof.
+  unfold introspect_model, schema_answer, drop_deprecated. rewrite on_dict_schema, on_dict_types.
+  unfold drop_deprecated_types. rewrite map_map.
+  rewrite (map_ext _ _ (fun t => full_type_drop_deprecated d (s_types s) t)).
+  assert (Hd : forall dr, directive_answer (IFlags false d) (s_types s) dr = directive_answer (IFlags true d) (s_types s) dr)
+    by reflexivity.
+  rewrite (map_ext _ _ Hd). reflexivity.
+Qed.
+
+Theorem type_query_drop_deprecated s d n :
+  type_query_model s (IFlags false d) n = drop_deprecated_type_query (type_query_model s (IFlags true d) n).
+Proof.
+  unfold type_query_model, drop_deprecated_type_query. rewrite on_dict_type.
+  destruct (find_type n (s_types s)); [rewrite full_type_drop_deprecated|]; reflexivity.
+Qed.
+
+Lemma filter_all_out {A} (p : A -> bool) l : forallb p l = true -> filter (fun x => negb (p x)) l = [].
+Proof.
+  induction l as [|x l IH]; simpl; [reflexivity|]. intros H. apply andb_true_iff in H as [Hx Hl].
+  rewrite Hx. simpl. auto.
+Qed.
+
+(* an object / interface / enum all of whose members are deprecated reports an
+   empty list, not null *)
+Lemma all_deprecated_empty_list d ts t :
+  (forall fs, (exists ifs, t_def t = IObject fs ifs) \/ t_def t = IInterface fs ->
+     forallb (fun f => f_deprecated f) fs = true ->
+     getk (S_ "fields") (full_type (IFlags false d) ts t) = Some (PList [])) /\
+  (forall vs, t_def t = IEnum vs -> forallb ev_deprecated vs = true ->
+     getk (S_ "enumValues") (full_type (IFlags false d) ts t) = Some (PList [])).
+Proof.
+  split.
+  - intros fs Hd Hall. rewrite full_type_fields.
+    assert (Hv : visible_fields (IFlags false d) fs = [])
+      by (rewrite visible_fields_hidden by reflexivity; apply filter_all_out; exact Hall).
+    destruct Hd as [[ifs Hd]|Hd]; rewrite Hd, Hv; reflexivity.
+  - intros vs Hd Hall. rewrite full_type_enum_values, Hd.
+    assert (Hv : visible_values (IFlags false d) vs = [])
+      by (rewrite visible_values_hidden by reflexivity; apply filter_all_out; exact Hall).
+    rewrite Hv. reflexivity.
+Qed.
+
+(* ------------------------------------------------------------------ *)
+(* possibleTypes / interfaces symmetry, nothing twice *)
+
+Lemma full_type_interfaces fl ts t :
+  getk (S_ "interfaces") (full_type fl ts t) =
+  Some (opt_list match t_def t with
+                 | IObject _ ifs => Some (map (fun n => top_ref ts (IRNamed n)) ifs)
+                 | _ => None end).
+Proof. unfold full_type, desc_entry. destruct (with_descriptions fl); reflexivity. Qed.
+
+Lemma reported_interfaces fl (ts : list (itype pv)) t fs ifs :
+  t_def t = IObject fs ifs -> member_names (S_ "interfaces") (full_type fl ts t) = Some ifs.
+Proof.
+  intros H. unfold member_names. rewrite full_type_interfaces, H. cbn [opt_list as_list obind_].
+  rewrite (names_of_map _ (fun n => n)); [rewrite map_id; reflexivity|]. intros n. reflexivity.
+Qed.
+
+Lemma possible_interfaces_symmetry fl (ts : list (itype pv)) I T fsI fsT ifs lp li :
+  NoDup (map t_name ts) -> In T ts ->
+  t_def I = IInterface fsI -> t_def T = IObject fsT ifs ->
+  member_names (S_ "possibleTypes") (full_type fl ts I) = Some lp ->
+  member_names (S_ "interfaces") (full_type fl ts T) = Some li ->
+  (In (t_name T) lp <-> In (t_name I) li).
+Proof.
+  intros Hnd HT HI HTd Hlp Hli.
+  rewrite (reported_interfaces fl ts T fsT ifs HTd) in Hli. inversion Hli; subst li.
+  assert (Hp : possible_types ts I = Some (sort_by (fun n => n) (implementations ts (t_name I))))
+    by (unfold possible_types; rewrite HI; reflexivity).
+  rewrite (reported_possible_types fl ts I _ Hp) in Hlp. inversion Hlp; subst lp.
+  destruct (possible_types_sorted ts I _ Hp) as [_ Hin]. rewrite Hin, HI.
+  split.
+  - intros (o & Ho & Hn & Himp). assert (o = T) by (eapply (key_inj_in t_name ts); eauto). subst o.
+    unfold implements in Himp. rewrite HTd in Himp. apply mem_str_In. exact Himp.
+  - intros Hi. exists T. repeat split; auto. unfold implements. rewrite HTd. apply mem_str_In. exact Hi.
+Qed.
+
+Lemma reported_type_names_nodup s fl l :
+  NoDup (map t_name (s_types s)) ->
+  obind_ (schema_part (S_ "types") (introspect_model s fl)) names_of = Some l -> NoDup l.
+Proof.
+  intros Hnd H. rewrite reported_type_names in H. inversion H; subst.
+  eapply Permutation_NoDup; [|exact Hnd]. apply Permutation_map. symmetry. apply sort_by_perm.
+Qed.
+
+(* ------------------------------------------------------------------ *)
+(* the guard at a scalar-typed position, spelled out *)
+Lemma default_okb_scalar_position (ts : list (itype pv)) t v :
+  is_scalar_name ts (iref_base t) = true ->
+  default_okb ts t v =
+  match v with
+  | PStr x => forallb plain_char x
+  | PList _ => scalar_denotable v && negb (has_astral v)
+  | _ => scalar_denotable v
+  end.
+Proof.
+  unfold is_scalar_name, default_okb, in_open_finding, denotable, class_enum, class_input_object,
+    class_string_escape, class_astral_in_list, base_def.
+  destruct (find_type (iref_base t) ts) as [[? ? []]|]; try discriminate. intros _.
+  destruct v; cbn [option_map t_def orb negb andb scalar_denotable];
+    rewrite ?orb_false_r, ?negb_involutive, ?andb_true_r; try reflexivity.
+  apply andb_comm.
+Qed.
+
+(* every reported defaultValue of a default accepted by the guard reads back
+   as the literal denoting the declared default; an absent default is reported null *)
+Theorem default_value_exact (ts : list (itype pv)) t d :
+  match d with Some v => default_okb ts t v = true | None => True end ->
+  decode_default (Some (format_default_value d)) = Some (pd_exact ts t d).
+Proof. intros H. apply decode_default_ok. exact H. Qed.
